@@ -24,7 +24,7 @@ ASSUMPTIONS = ["oracle step limit: a case on which the reference fixpoint gives 
                "wall-clock watchdog is counted inconclusive (tolerated up to 4 % of the cases), never judged"]
 TIERS = {
     "quick": {"workers": 8, "random": 60, "products": 6, "word_products": 40, "case_timeout": 12, "inconclusive_tolerance": 0.04},
-    "thorough": {"workers": 16, "random": 1500, "products": 100, "word_products": 800, "case_timeout": 60, "inconclusive_tolerance": 0.02, "pytest": True, "exhaustive": True, "hard_timeout": 3300},
+    "thorough": {"workers": 16, "random": 500, "products": 40, "word_products": 300, "case_timeout": 60, "inconclusive_tolerance": 0.02, "pytest": True, "exhaustive": True, "hard_timeout": 3300},
 }
 MIN = {"quick": {"C17.IndexedGrammar.is_empty": 10000, "C17.IndexedGrammar.remove_useless_rules": 100,
                  "C17.IndexedGrammar.intersection": 30, "C17.Rules.__init__": 10000},
